@@ -1,5 +1,6 @@
 /* C06: block structure and resource limits. */
 #include "verif_tx.h"
+#include "verif_ser.h"
 #define C06_CONSTS
 #include "slices.h"      /* first pass: extracted constants and the BlockValidationResult enum */
 #undef C06_CONSTS
@@ -122,6 +123,35 @@ __CPROVER_ensures(__CPROVER_return_value != 0 ==> (state->mode_invalid == 1 && s
 __CPROVER_ensures(__CPROVER_return_value == 0 ==> state->mode_invalid == 0)
 __CPROVER_assigns(*nSigOpsCost_p, state->mode_invalid, state->result, state->reason, g_wit_sum, g_wit_n);
 
+/* ---- BIP34: the coinbase scriptSig starts with the script push of the height ---- */
+typedef unsigned char value_type; typedef int opcodetype; int g_thrown;
+static inline void ByteVec_push(ByteVec* v, unsigned char b) { __CPROVER_assert(v->size < v->cap, "push within the ghost capacity"); v->data[v->size] = b; v->size = v->size + 1; }
+static inline void ByteVec_append(ByteVec* v, const unsigned char* p, size_t n) { for (size_t k = 0; k < n; k++) ByteVec_push(v, p[k]); }           /* VERIF_STUB insert(end(), first, last) */
+static inline bool ByteVec_equal_prefix(const ByteVec* e, const ByteVec* s) { for (size_t k = 0; k < e->size; k++) if (e->data[k] != s->data[k]) return 0; return 1; }   /* VERIF_STUB std::equal(e.begin(), e.end(), s.begin()) */
+static inline void WriteLE16(unsigned char* p, uint16_t x) { p[0] = (unsigned char)x; p[1] = (unsigned char)(x >> 8); }
+static inline void WriteLE32(unsigned char* p, uint32_t x) { p[0] = (unsigned char)x; p[1] = (unsigned char)(x >> 8); p[2] = (unsigned char)(x >> 16); p[3] = (unsigned char)(x >> 24); }
+#define SIG(k) (cb_scriptSig->data[k])
+#define H ((unsigned)nHeight)
+#define NB (H < 0x80u ? 1u : H < 0x8000u ? 2u : H < 0x800000u ? 3u : 4u)         /* minimal sign-magnitude length of a positive height below 2^31 */
+#ifdef TWIN_BIP34
+#define NB_T (H <= 0x80u ? 1u : H < 0x8000u ? 2u : H < 0x800000u ? 3u : 4u)
+#else
+#define NB_T NB
+#endif
+#define HEIGHT_PREFIX_OK (nHeight == 0 ? (cb_scriptSig->size >= 1 && SIG(0) == 0x00) : nHeight <= 16 ? (cb_scriptSig->size >= 1 && SIG(0) == 0x50 + H) : \
+    (cb_scriptSig->size >= 1 + NB_T && SIG(0) == NB_T && SIG(1) == (H & 0xff) && (NB_T < 2 || SIG(2) == ((H >> 8) & 0xff)) && (NB_T < 3 || SIG(3) == ((H >> 16) & 0xff)) && (NB_T < 4 || SIG(4) == ((H >> 24) & 0xff))))
+VERIF_REACH_DECL(ContextualCheckBlock_bip34)
+bool ContextualCheckBlock_bip34(const ByteVec* cb_scriptSig, const int nHeight, bool bip34_active, BlockValidationState* state)
+__CPROVER_requires(__CPROVER_is_fresh(cb_scriptSig, sizeof(ByteVec)) && cb_scriptSig->size <= 100 && __CPROVER_is_fresh(cb_scriptSig->data, 100) && nHeight >= 0 && bip34_active <= 1)
+__CPROVER_requires(__CPROVER_is_fresh(state, sizeof(BlockValidationState)) && state->mode_invalid == 0)
+__CPROVER_ensures(!bip34_active ==> (__CPROVER_return_value && state->mode_invalid == 0))
+__CPROVER_ensures(bip34_active ==> ((__CPROVER_return_value != 0) == HEIGHT_PREFIX_OK))
+__CPROVER_ensures(!__CPROVER_return_value ==> (state->mode_invalid == 1 && state->result == BLOCK_CONSENSUS && state->reason == SPEC_R_bad_cb_height))
+VERIF_REACH_ENSURES(ContextualCheckBlock_bip34, bip34_active && __CPROVER_return_value && nHeight == 840000)
+VERIF_REACH_ENSURES(ContextualCheckBlock_bip34, bip34_active && __CPROVER_return_value && nHeight == 16)
+VERIF_REACH_ENSURES(ContextualCheckBlock_bip34, bip34_active && !__CPROVER_return_value && nHeight == 128 && cb_scriptSig->size > 5 && SIG(0) == 1)
+__CPROVER_assigns(state->mode_invalid, state->result, state->reason, g_thrown);
+
 /* ---- GetBlockWeight and the weight limit of ContextualCheckBlock ---- */
 int64_t GetBlockWeight(const CBlockView* block)
 __CPROVER_requires(__CPROVER_is_fresh(block, sizeof(CBlockView)) && block->ser_size_nowit <= 0x100000000ull && block->ser_size_total <= 0x100000000ull)
@@ -144,5 +174,6 @@ void h_CheckBlock(void) { CBlockView* b; BlockValidationState* st; const Consens
     g_k = nondet_size_t(); g_k_coinbase = nondet_bool(); g_k_txok = nondet_bool(); g_k_txreason = nondet_uint(); g_k_sigops = nondet_uint(); VERIF_REACH_ON(CheckBlock); CheckBlock(b, st, cp, pow, mr); }
 void h_GetTransactionSigOpCost(void) { const TxView* t; unsigned fl; g_i = nondet_size_t(); g_i_wit = nondet_size_t(); VERIF_REACH_ON(GetTransactionSigOpCost); GetTransactionSigOpCost(t, fl); }
 void h_sigops_accumulation(void) { int64_t* c; const TxView* t; BlockValidationState* st; unsigned fl; int r = ConnectBlock_sigops_accumulation(c, t, fl, st); if (r) VERIF_REACH_PT("rejected"); else VERIF_REACH_PT("accepted"); }
+void h_bip34(void) { const ByteVec* sg; BlockValidationState* st; int h; bool act = nondet_bool(); VERIF_REACH_ON(ContextualCheckBlock_bip34); ContextualCheckBlock_bip34(sg, h, act, st); }
 void h_GetBlockWeight(void) { const CBlockView* b; GetBlockWeight(b); VERIF_REACH_PT("weight"); }
 void h_weight_limit(void) { const CBlockView* b; BlockValidationState* st; bool r = ContextualCheckBlock_weight_limit(b, st); if (r) VERIF_REACH_PT("accepted"); else VERIF_REACH_PT("rejected"); }
